@@ -37,6 +37,23 @@ CHECKS["C11"] = (
     "copy form, inplace form and string-level function - is judged by TLC against those operators.",
     "Assumes TLC and the projection are correct. Shuffle is judged as 'some residue permutation'; intervals are "
     "constrained only where the statement does (reverse, slice, identities).", "DESIGN.md §6 C11")
+CHECKS["C19"] = (
+    "TLA+ reference enumerations (Combinatoric.tla, counts/order model-checked in MC_Combinatoric) + TLC trace "
+    "validation of recorded permutations/combinations/product calls (Trace_Annotation!CombFails)",
+    "TLC checks that the reference index-tuple enumerations have the closed-form counts and itertools order for all "
+    "n<=4, k<=5, then judges every recorded expansion of the real code item by item, in order, against the "
+    "enumeration wrapped in the peptide's unchanged outer annotations.",
+    "Assumes TLC and the projection are correct; result lists are capped (800 quick / 3000 thorough items).",
+    "DESIGN.md §6 C19")
+CHECKS["C20"] = (
+    "TLA+ reference equality/strip/dictionary operators (Annotation.tla; MC_Equal model-checks that Equal is an "
+    "order-insensitive equivalence separating every other difference) + TLC trace validation of recorded "
+    "get_mods/add_mods, create_annotation(**dict()), copy, strip and == calls (Trace_Annotation)",
+    "The specification's Equal is model-checked on a bounded space; for each recorded == of the real code on an "
+    "annotation and a single-field perturbation TLC computes Equal(A,B) itself and compares; reconstruction, copy "
+    "independence (edits on either side) and strip are judged against the abstract annotation.",
+    "Assumes TLC and the projection are correct; perturbations are produced by the driver but classified by the spec.",
+    "DESIGN.md §6 C20")
 NOT_YET = "check not built yet in this round (planned with the TLA+ technique, see DESIGN.md §6)"
 
 
